@@ -24,6 +24,7 @@ gstate (read from the real module / class level variables after every compilatio
  ic  _prepare_ast_out.count                          st  total size of the _SubTypes caches
 """
 import contextlib
+import gc
 import hashlib
 import importlib.util
 import io
@@ -196,6 +197,10 @@ def main():
     from cohdl import std  # noqa: F401
     remember_originals()
     base = snapshot(None)
+    # the children share this image copy-on-write: keep the collector away from the objects that exist now
+    # (a full collection in a child would touch, i.e. copy, every page of the heap)
+    gc.collect()
+    gc.freeze()
     jobs = req["jobs"]
     par = int(req.get("par", 8))
     pool = req["pool"]
